@@ -126,6 +126,13 @@ def make_system(r, kind, np):
             B[np.ix_(el, el)] = _spd_mix(r, np, bd[el], 0.6)
             if mform == "2d":
                 M[np.ix_(el, el)] = _spd_mix(r, np, mass[el], 0.3)
+                if kind == "se2" and r.random() < 0.5:
+                    # SolveExp2 takes general matrices: a non-symmetric mass (e.g. a
+                    # transformed or gyroscopically augmented one) separates inv(M)
+                    # from its transpose
+                    Z = r.standard_normal((nel, nel))
+                    M[np.ix_(el, el)] += 0.12 * np.sqrt(np.outer(mass[el], mass[el])) \
+                        * (Z - Z.T) / 2
         else:
             # a single elastic DOF cannot be coupled: couple the damping of the
             # non-rf block through the rigid-body rows?  no -- rb must stay undamped
